@@ -18,6 +18,7 @@ pub fn property() -> Property {
             Tier::Thorough => 1500.0,
         },
         info: || PropInfo {
+            floors: vec![],
             rule: "one run = one seeded request history (1..40 datagrams: get/get_peers/get_signed_peers/find_node/ping and the four write kinds with fresh/old/other-IP/other-node/mutated/empty tokens and valid/invalid payloads incl. 1000/1001, 64/65, +-44/46 s) from 2-4 raw clients on close/shared/unrelated IPs against one real server (capacities 1..3 or default, optional request filter, skewed clocks), under duplication/reordering/loss; the reference model is advanced in the order the server consumed the datagrams. Non-trivial = at least one write reached the model; distinct = hash of the consumed (kind, source) sequence".into(),
             assumptions: vec![
                 "token validity window is the property's (must accept <= 5 min, must reject > 10 min + 2*gap, either in between)".into(),
